@@ -242,8 +242,18 @@ def _shared(ctx, rng, binary, ex):
         e = B.run_batch(binary, ex, "sh_c%d" % c, order, SHARED, c, rng.choice(GMPS), folders=[0] * len(order))
         runs.append((e, B.folder_digest(os.path.join(e.root, "l0"))))
         shutil.rmtree(e.root, ignore_errors=True)
+    # the SAME line several times in one batch, same result folder: the folder equals the line's solo folder
+    twins = []
+    tk = ["sh_a", "sh_f", "sh_d"]
+    for c in CONC:
+        order = [tk[0]] * 3 + [tk[1]] * 2 + [tk[2]] * 2
+        rng.shuffle(order)
+        e = B.run_batch(binary, ex, "tw_c%d" % c, order, SHARED, c, rng.choice(GMPS), folders=[tk.index(k) for k in order])
+        twins.append((e, [B.folder_digest(os.path.join(e.root, "l%d" % i)) for i in range(len(tk))]))
+        shutil.rmtree(e.root, ignore_errors=True)
     shutil.rmtree(solo.root, ignore_errors=True)
-    return {"solo": solo, "want": want, "per_line": per_line, "runs": runs, "name_clash": sum(len(d) for d in per_line.values()) != len(want)}
+    return {"solo": solo, "want": want, "per_line": per_line, "runs": runs, "name_clash": sum(len(d) for d in per_line.values()) != len(want),
+            "twins": twins, "twin_keys": tk}
 
 
 def _fout(ctx):
@@ -324,13 +334,22 @@ def correspond(ctx):
     if rc != 0:
         c.mismatches.append({"kind": "fout-harness", "stderr": err[-800:]})
     hb = lambda h: "[" + "; ".join(str(b) for b in (bytes.fromhex(h) if h != "e" else b"")) + "]"
-    fcs = []
+    fcs, hcs = [], []
     for line in out.split("\n"):
         t = line.split()
         if t and t[0] == "F":
             old = "None" if t[1] == "-" else "(Some %s)" % hb(t[1])
             chunks = "[]" if t[3] == "-" else "[" + "; ".join(hb(x) for x in t[3].split(",")) + "]"
             fcs.append(("(FCase %s %s %s %s)" % (old, "true" if t[2] == "1" else "false", chunks, hb(t[4])), line))
+        elif t and t[0] == "H":
+            left, right = line[2:].split(" | ")
+            lt = left.split()
+            rl = lambda s: "[]" if s == "-" else "[" + "; ".join("(%s, %s)" % tuple(x.split(":")) for x in s.split(",")) + "]"
+            evs = []
+            for ev in lt[1:]:
+                f = ev[1:].split(":")
+                evs.append("HOpen %s %s" % (f[0], "true" if f[1] == "1" else "false") if ev[0] == "O" else "HWrite %s %s %s" % (f[0], f[1], f[2]))
+            hcs.append(("(HCase %s [%s] %s)" % (rl(lt[0]), "; ".join(evs), rl(right.strip())), line))
         elif t and t[0] == "OPEN":
             ok = (t[3] == "false") or (t[1] == "OpenResultFile" and t[3] == "append")
             if not ok:
@@ -348,7 +367,22 @@ def correspond(ctx):
             idx = [int(x) for x in re.findall(r"\d+", m.group(1))]
             c.mismatches.append({"kind": "fout", "what": "OutFileModel (not append => truncate) and hermes.DefaultFoutGenerator differ: "
                                  "F <old content> <append> <chunks> <file afterwards> (hex)", "cases": [fcs[i][1] for i in idx[:8]]})
-    c.cases += len(fcs); c.nontrivial += len({x[0] for x in fcs}); c.dist["fout_cases"] = len(fcs)
+    if hcs:
+        text = "\n".join(["From stdpp Require Import gmap.", "From Hermes Require Import HandleModel C03Corr.", "Local Open Scope Z_scope.",
+                          "Definition cases : list hcase := [\n  %s]." % ";\n  ".join(x[0] for x in hcs),
+                          "Definition HM := Eval vm_compute in hmismatches 0 cases.", "Print HM."]) + "\n"
+        rc2, o = ctx.coq_eval("Cases_C03_handles", text, timeout=300)
+        m = re.search(r"HM\s*=\s*(.*?)\s*:\s*list Z", o, re.S)
+        if rc2 != 0 or not m:
+            c.mismatches.append({"kind": "coq-eval", "shard": "Cases_C03_handles", "output": o[-1500:]})
+        elif m.group(1).strip() != "[]":
+            idx = [int(x) for x in re.findall(r"\d+", m.group(1))]
+            c.mismatches.append({"kind": "handles", "what": "HandleModel (not append => O_TRUNC, every handle writes at its own offset) and "
+                                 "hermes.DefaultFoutGenerator differ with several writers open on one path: "
+                                 "H <old v:n> <O<h>:<append> | W<h>:<byte>:<n> ...> | <file afterwards, run-length encoded>",
+                                 "cases": [hcs[i][1][:400] for i in idx[:6]]})
+    c.cases += len(fcs) + len(hcs); c.nontrivial += len({x[0] for x in fcs}) + len({x[0] for x in hcs})
+    c.dist["fout_cases"] = len(fcs); c.dist["fout_multi_handle_cases"] = len(hcs)
     ru = r["reuse"]
     for mode, (e, digs, execs) in ru["modes"].items():
         c.cases += len(execs); c.nontrivial += len(execs)
@@ -366,6 +400,8 @@ def correspond(ctx):
     for e, _ in sh["runs"]:
         if e.died():
             c.mismatches.append({"kind": "execution", "tag": e.tag, "what": "process did not finish normally", "rc": e.rc, "stderr": e.stderr[-600:]})
+    c.cases += len(sh["twins"]); c.nontrivial += len(sh["twins"])
+    c.dist["repeated_line_runs"] = len(sh["twins"])
     c.dist["shared_folder_runs"] = len(sh["runs"]); c.dist["solo_runs"] = len(r["solos"])
     c.dist["reuse_lines"] = len(ru["keys"]); c.dist["reuse_file_kinds"] = "".join(ru["kinds"])
     if "race_build_error" in r:
@@ -472,6 +508,20 @@ def oracle(ctx, search):
                 fails.append(Fail(key="shared-folder:%s:%s" % ("file-set" if extra or missing else "content", first[:1]),
                                   what="lines sharing a result folder (distinct output ids) do not leave exactly their solo files",
                                   unexpected_files=extra[:6], missing_files=missing[:6], differing_files=differ[:6], concurrency=e.c, replay=replay))
+    if not sh["solo"].died():
+        for e, digs in sh["twins"]:
+            replay = ("cd <copy of /repo/examples>; batch: " + " || ".join("%s resultfolder=T/l%d" % (SHARED[k], sh["twin_keys"].index(k)) for k in e.contents) +
+                      " ; GOMAXPROCS=%d hermes2go -module batch -concurrent %d -batch <file>; T/l<j> must equal the folder of that line run once alone" % (e.gmp, e.c))
+            if e.died():
+                fails.append(Fail(key="execution-died:repeated-line:c=%d" % e.c, what="batch execution did not finish normally", stderr=e.stderr[-600:], replay=replay))
+                continue
+            for j, k in enumerate(sh["twin_keys"]):
+                compared += 1
+                if digs[j] != sh["per_line"][k]:
+                    diff = sorted(f for f in set(digs[j]) | set(sh["per_line"][k]) if digs[j].get(f) != sh["per_line"][k].get(f))
+                    fails.append(Fail(key="repeated-line:%s:%s" % (k, diff[0][:1] if diff else "?"),
+                                      what="the same batch line occurring several times in one batch (same result folder) does not leave the result files of its solo run",
+                                      line=SHARED[k], files=diff[:6], concurrency=e.c, replay=replay))
     ru = r["reuse"]
     if ru["ref"].died():
         fails.append(Fail(key="reference-run:died", what="reference execution of the re-use stage did not finish", stderr=ru["ref"].stderr[-600:]))
